@@ -816,6 +816,48 @@ def laws(rng, tier, ctx):
             'join on the computed keys [3] / [1,2] against [[3]]: %d row(s) (the relational join has 1), xor keeps %d row(s) (the anti-join has 1)' % (len(j), len(o)))
     except Exception as e:
         EXTRA['container_keys_of_unequal_length (outside the quantifier)'] = 'probe raised %s' % type(e).__name__
+    # datetime-like keys the wire cannot spell (review 4 v1 item 5): pd.Timestamp, pd.NaT, np.datetime64 (incl. NaT) beside datetimes, None and numpy
+    # floats.  cceb13a / a949734 / 7a44481 changed cmp / sort for exactly these; here join / xor are checked on the implementation alone against nested
+    # loops over the NORMALISED keys (a Timestamp / datetime64 is the datetime of its instant, every NaT the one missing datetime - not None)
+    import pandas as pd
+    NAT = ('NaT',)
+    def norm(k):
+        if k is pd.NaT or (isinstance(k, np.datetime64) and np.isnat(k)):
+            return NAT
+        if isinstance(k, pd.Timestamp):
+            return k.to_pydatetime()
+        if isinstance(k, np.datetime64):
+            return k.astype('datetime64[us]').astype(datetime.datetime)
+        return k
+    def nkeq(a, b):
+        return (a is NAT and b is NAT) if (a is NAT or b is NAT) else keq(a, b)
+    def pool():
+        return [pd.Timestamp('2020-01-01'), D(2020, 1, 1), pd.NaT, np.datetime64('NaT'), np.datetime64('2020-01-02'), pd.Timestamp('2020-01-02'),
+                D(2020, 1, 2), None, np.float32(0.5), 0.5, float('nan'), 1]
+    for _ in range(60 if tier == 'quick' else 1500):
+        ks = rng.sample(pool(), rng.choice([2, 3, 4, 6]))
+        nx, ny = rng.choice([1, 2, 3, 5, 8]), rng.choice([1, 2, 3, 5, 8])
+        xa, ya = [rng.choice(ks) for _ in range(nx)], [rng.choice(ks) for _ in range(ny)]
+        case = dict(tag='law-datetime-like-keys', lines=['(python: x = dictable(a = %r, v = range); y = dictable(a = %r, u = range); x.join(y, "a"); x.xor(y, "a"))' % (xa, ya)])
+        count += 1
+        try:
+            x, y = pyg_base.dictable(a=list(xa), v=list(range(nx))), pyg_base.dictable(a=list(ya), u=list(range(ny)))
+            jn = guarded(lambda: x.join(y, 'a'))
+            xo = guarded(lambda: x.xor(y, 'a'))
+        except Timeout:
+            yield Finding('violation', case, 'join / xor did not return within its time budget')
+            continue
+        except Exception as e:
+            yield Finding('violation', case, 'join / xor raised %s: %s' % (type(e).__name__, str(e)[:80]))
+            continue
+        want = Counter((i, j) for i in range(nx) for j in range(ny) if nkeq(norm(xa[i]), norm(ya[j])))
+        have = Counter(zip(jn['v'], jn['u'])) if len(jn) else Counter()
+        if want != have:
+            yield Finding('violation', case, 'joined (v, u) pairs %s, the key-equal pairs are %s' % (sorted(have.elements())[:8], sorted(want.elements())[:8]))
+            continue
+        wx = [i for i in range(nx) if not any(nkeq(norm(xa[i]), norm(ya[j])) for j in range(ny))]
+        if sorted(xo['v'] if len(xo) else []) != wx:
+            yield Finding('violation', case, 'x / y keeps the rows %s of x, the rows without a match are %s' % (sorted(xo['v'] if len(xo) else []), wx))
     yield count
 
 
